@@ -380,6 +380,10 @@ func checkC11(c *Check) {
 	// the text the processor sees is the line's own text (verbatim substrings, keyword at the start)
 	spacingRule(c)
 	importRules(c, "C17", checkC17, "", "line-integrity")
+	// very long lines reach the processor whole: the pipe is read with an
+	// accumulating primitive (rules of C12)
+	nlf := importRules(c, "C12", checkC12, "long-lines-framed: ", "framing-primitive", "read-error-ends-delivery")
+	c.Floor("imported long-lines-framed obligations", 3, nlf)
 
 	// 6. forward only with success
 	for _, h := range findHandOffs(p) {
